@@ -292,3 +292,377 @@ def combinator_templates(max_arity: int = 3):
         out.append(make(ops.ChoiceSpec, f"template:Choice[{k}]", lambda k=k: gx.Choice(*[stub(i) for i in range(k)]), arity=k, facts=nary_facts(ops.ch_unfold)))
         out.append(make(ops.SequenceSpec, f"template:Sequence[{k}]", lambda k=k: gx.Sequence(*[stub(i) for i in range(k)]), arity=k, facts=nary_facts(ops.sq_unfold)))
     return out
+
+
+# ================================================================== templates with loops
+from .ops import G_inst, Loop, W2, more_prs, more_st, more_unfold, ocall, rep, restored  # noqa: E402
+
+
+def _calls_since(run: Run, n0: int):
+    return run.ghost.get("oracle_calls", [])[n0:]
+
+
+def repeat_template_loop(spec):
+    """`while True:` of the emitted e*: loop head = no checkpoint open, scratch list empty,
+    state = La (after the last committed item; L0 the first time)."""
+
+    def entry(run):
+        return {"acc": Sym(EMPTY_P, "seq:pair")}
+
+    def flag(run):
+        env = run.frames[0].env
+        name = next(k for k in env if k.startswith("first"))
+        return z(env[name])
+
+    def scratch(run):
+        env = run.frames[0].env
+        name = next(k for k in env if k.startswith("children"))
+        t, _ = run.as_seq(env[name], None, "pair")
+        return t
+
+    def facts(run, g):
+        Lc = spec.cur(run)  # noqa: N806
+        if run.loop_phase == "head":
+            run.ghost["calls_at_head"] = len(run.ghost.get("oracle_calls", []))
+        first = flag(run) if run.loop_phase != "step" else z3.BoolVal(False)
+        _, Lt, Pt = ocall(TV, 0, Lc)  # noqa: N806
+        Lin = z3.If(first, Lc, Lt)  # noqa: N806
+        _, L2, P2 = ocall(C, 0, Lin)  # noqa: N806
+        acc = z(g["acc"])
+        p0, pc, pt, p2 = lget(run.pre["L0"], "pos"), lget(Lc, "pos"), lget(Lt, "pos"), lget(L2, "pos")
+        return [*more_unfold(Lc), G_inst(TV, 0, Lc), G_inst(C, 0, Lin), W1(p0, p0),
+                W2(Pt, P2, pc, pt, p2), W2(acc, z3.Concat(Pt, P2), p0, pc, p2), W2(acc, P2, p0, pc, p2)]
+
+    def inv(run, g):
+        L0, P0 = run.pre["L0"], run.pre["P0"]  # noqa: N806
+        Lc = spec.cur(run)  # noqa: N806
+        acc = z(g["acc"])
+        first = flag(run)
+        st0, prs0 = rep(L0)
+        return [
+            ("snaps", spec.snaps_same(run)),
+            ("pairs", spec.pairs_now(run) == z3.Concat(P0, acc)),
+            ("scratch", z3.Length(scratch(run)) == 0),
+            ("first", z3.Implies(first, z3.And(Lc == L0, z3.Length(acc) == 0))),
+            ("rep", z3.Implies(z3.Not(first), z3.And(st0 == more_st(Lc), prs0 == z3.Concat(acc, more_prs(Lc))))),
+            ("wf", z3.And(*wf_state(Lc), *G(L0, z3.BoolVal(True), Lc, EMPTY_P)[:6])),
+            ("wf.acc", wf(acc, lget(L0, "pos"), lget(Lc, "pos"))),
+        ]
+
+    def back(run, g):
+        acc = z(g["acc"])
+        for fam, i, L in _calls_since(run, run.ghost["calls_at_head"]):  # noqa: N806
+            acc = z3.Concat(acc, fam[2](i, L))
+        return {"acc": Sym(acc, "seq:pair")}
+
+    def modifies(run):
+        env = run.frames[0].env
+        cells = spec.state_cells(run)
+        for k, v in env.items():
+            if k.startswith("children") and isinstance(v, Ref):
+                run.as_seq(v, None, "pair")
+                cells.append((v, "seq"))
+        return cells
+
+    return Loop(inv, facts=facts, modifies=modifies, ghosts={"acc": "seq:pair"}, entry=entry, back=back)
+
+
+def repeat_once_template_loop(spec):
+    """emitted e+ : count = 0 -> nothing yet; 1 -> first item + kept trivia done (state Lt);
+    >= 2 -> inside e* started at Lt, state La after the last committed item."""
+
+    def entry(run):
+        return {"acc": Sym(EMPTY_P, "seq:pair")}
+
+    def var(run, prefix):
+        env = run.frames[0].env
+        return env[next(k for k in env if k.startswith(prefix))]
+
+    def spec_terms(run):
+        L0 = run.pre["L0"]  # noqa: N806
+        ok, L1, P1 = ocall(C, 0, L0)  # noqa: N806
+        _, Lt, Pt = ocall(TV, 0, L1)  # noqa: N806
+        return ok, L1, P1, Lt, Pt
+
+    def facts(run, g):
+        Lc = spec.cur(run)  # noqa: N806
+        if run.loop_phase == "head":
+            run.ghost["calls_at_head"] = len(run.ghost.get("oracle_calls", []))
+        L0 = run.pre["L0"]  # noqa: N806
+        ok, L1, P1, Lt, Pt = spec_terms(run)  # noqa: N806
+        _, Lct, Pct = ocall(TV, 0, Lc)  # noqa: N806
+        acc = z(g["acc"])
+        out = [*more_unfold(Lc), G_inst(TV, 0, Lc), G_inst(C, 0, Lc), G_inst(C, 0, Lct), G_inst(C, 0, L0), G_inst(TV, 0, L1), W1(lget(Lt, "pos"), lget(Lt, "pos"))]
+        pt, pc = lget(Lt, "pos"), lget(Lc, "pos")
+        for Lin, Pin in ((Lc, EMPTY_P), (Lct, Pct)):  # noqa: N806
+            _, L2, P2 = ocall(C, 0, Lin)  # noqa: N806
+            out += [W2(Pin, P2, pc, lget(Lin, "pos"), lget(L2, "pos")), W2(acc, z3.Concat(Pin, P2), pt, pc, lget(L2, "pos")), W2(acc, P2, pt, pc, lget(L2, "pos"))]
+        return out
+
+    def inv(run, g):
+        L0, P0 = run.pre["L0"], run.pre["P0"]  # noqa: N806
+        Lc = spec.cur(run)  # noqa: N806
+        acc = z(g["acc"])
+        count = z(var(run, "count"))
+        ok, L1, P1, Lt, Pt = spec_terms(run)  # noqa: N806
+        rst, rprs = rep(Lt)
+        t, _ = run.as_seq(var(run, "item_children"), None, "pair")
+        return [
+            ("snaps", spec.snaps_same(run)),
+            ("count", count >= 0),
+            ("scratch", z3.Length(t) == 0),
+            ("zero", z3.Implies(count == 0, z3.And(Lc == L0, spec.pairs_now(run) == P0))),
+            ("some", z3.Implies(count >= 1, z3.And(ok, spec.pairs_now(run) == z3.Concat(P0, P1, Pt, acc)))),
+            ("one", z3.Implies(count == 1, z3.And(Lc == Lt, z3.Length(acc) == 0))),
+            ("more", z3.Implies(count >= 2, z3.And(rst == more_st(Lc), rprs == z3.Concat(acc, more_prs(Lc))))),
+            ("wf", z3.And(*wf_state(Lc), *G(L0, z3.BoolVal(True), Lc, EMPTY_P)[:6], z3.Implies(count >= 1, lget(Lt, "pos") <= lget(Lc, "pos")))),
+            ("wf.acc", z3.Implies(count >= 1, wf(acc, lget(Lt, "pos"), lget(Lc, "pos")))),
+        ]
+
+    def back(run, g):
+        count_before = run.ghost.get("count_at_head")
+        acc = z(g["acc"])
+        calls = _calls_since(run, run.ghost["calls_at_head"])
+        # the iteration that makes count 1 commits P1 and the kept trivia, which are not part of acc
+        new = EMPTY_P
+        for fam, i, L in calls:  # noqa: N806
+            new = z3.Concat(new, fam[2](i, L))
+        count = z(var(run, "count"))
+        return {"acc": Sym(z3.If(count <= 1, EMPTY_P, z3.Concat(acc, new)), "seq:pair")}
+
+    def modifies(run):
+        env = run.frames[0].env
+        cells = spec.state_cells(run)
+        for k, v in env.items():
+            if k.startswith("item_children") and isinstance(v, Ref):
+                run.as_seq(v, None, "pair")
+                cells.append((v, "seq"))
+        return cells
+
+    return Loop(inv, facts=facts, modifies=modifies, ghosts={"acc": "seq:pair"}, entry=entry, back=back)
+
+
+def _ro_hints(self, run, L0, ok, L1, prs):  # noqa: N803
+    return ops.RepeatOnceSpec.wf_hints(self, run, L0, ok, L1, prs)
+
+
+def loop_templates():
+    gx = _gx()
+    out = [
+        make(ops.RepeatSpec, "template:Repeat", lambda: gx.Repeat(stub(0)), loops=lambda s: {0: repeat_template_loop(s)}),
+        make(ops.RepeatOnceSpec, "template:RepeatOnce", lambda: gx.RepeatOnce(stub(0)), loops=lambda s: {0: repeat_once_template_loop(s)}),
+    ]
+    return out
+
+
+def _flag_true(self, run: Run):
+    # the emitted loops keep their result flag True until the mismatch that breaks out
+    return [("flag", z(run.frames[0].env["matched"]) == z3.BoolVal(True))]
+
+
+def _set(obj, **kw):
+    for k, v in kw.items():
+        setattr(obj, k, v)
+    type(obj).inv_extra = _flag_true
+    return obj
+
+
+def stack_loop_templates():
+    gx = _gx()
+    out = []
+    for a, b in ((None, None), (0, 1), (1, None), (-1, None), (None, -1), (0, 0)):
+        sa = None if a is None else str(a)
+        sb = None if b is None else str(b)
+        t = make(ops.PeekSliceSpec, f"template:PeekSlice[{a}..{b}]", lambda sa=sa, sb=sb: gx.PeekSlice(sa, sb),
+                 lambda run, a=a, b=b: {"start": a, "stop": b, "tag": None})
+        out.append(_set(t, pos_var="pos1"))
+    out.append(_set(make(ops.PeekAllSpec, "template:PeekAll", lambda: gx.PeekAll()), pos_var=""))
+    out.append(_set(make(ops.PopAllTemplateSpec, "template:PopAll", lambda: gx.PopAll()), pos_var="pos1"))
+    return out
+
+
+class PopAllTemplateSpec(ops.PeekAllSpec):
+    """generated POP_ALL iterates the stack without popping and clears it at the end (same K as POP_ALL)."""
+
+    cls = ops.PopAllSpec.cls
+
+    def success(self, L):  # noqa: N803
+        return ops.lset(L, stk=z3.Empty(ops.SeqStrSort))
+
+
+ops.PopAllTemplateSpec = PopAllTemplateSpec  # type: ignore[attr-defined]
+
+
+# ================================================================== Identifier / Rule / parse_trivia / entry point
+def identifier_templates():
+    gx = _gx()
+    return [
+        make(ops.IdentifierSpec, "template:Identifier", lambda: gx.Identifier("r"), lambda run: {"value": "r", "tag": None}),
+        make(ops.TaggedIdentifierSpec, "template:Identifier[tagged]", lambda: gx.Identifier("r", "t"), lambda run: {"value": "r", "tag": "t"}),
+    ]
+
+
+class RuleTemplate(TemplateMixin, ops.RuleSpec):
+    """Rule.generate's `def inner(state, pairs)` for one modifier / name instance.
+    Strict on failure: a failing rule function leaves the caller's list exactly as it was."""
+
+    def __init__(self, modifier: int, trivia_name: str | None = None, kids: str = "pest"):
+        ops.RuleSpec.__init__(self, modifier, trivia_name, kids)
+        self.label = f"template:Rule[mod={modifier}{',' + trivia_name if trivia_name else ''}{',impl' if kids == 'impl' else ''}]"
+        self.target = self.label
+
+    def build(self):
+        from pest.grammar.rule import GrammarRule
+
+        node = GrammarRule(self.trivia_name or "r", stub(0), self.modifier)
+        code, consts = emit.emit_expression(node, {})
+        src, fn = emit.inner_function(code)
+        return src, fn, consts
+
+    def mk_self(self, run):
+        rid = run.fresh("self_rule", "rule")
+        name = self.trivia_name or "r"
+        run.assume(z3.And(r_name(rid.t) == z3.StringVal(name), r_mod(rid.t) == self.modifier))
+        return run.heap.alloc("pest.state.RuleFrame", {"name": name, "modifier": self.modifier, "$term": rid.t}, fresh=False)
+
+    def post(self, run: Run, pre: Any, out: Any) -> None:
+        TemplateMixin.post(self, run, pre, out)
+        ok, _, _ = self.K(run, pre["L0"])
+        run.oblige("K.pairs.strict", z3.Implies(z3.Not(ok), self.pairs_now(run) == pre["P0"]))
+
+
+def rule_templates(kids: str = "pest"):
+    out = []
+    for m in (0, 2, 4, 8, 16, 6, 10, 18):
+        out.append(RuleTemplate(m, None, kids if m == 4 else "pest"))
+    for nm in ("WHITESPACE", "COMMENT"):
+        for m in (0, 2):
+            out.append(RuleTemplate(m, nm))
+    return out
+
+
+class TriviaTemplate(TemplateMixin, ops.ParseTriviaSpec):
+    """generate_parse_trivia(rules): same K as ParserState.parse_trivia for the configuration."""
+
+    def __init__(self, skip: bool, ws: bool, cm: bool):
+        ops.ParseTriviaSpec.__init__(self, skip, ws, cm)
+        self.label = f"template:parse_trivia[skip={int(skip)},ws={int(ws)},cm={int(cm)}]"
+        self.target = self.label
+        self.loops = {0: self.tpl_loop()}
+
+    fail_care = tuple(FIELDS)
+
+    def build(self):
+        from pest.grammar.codegen.generate import generate_parse_trivia
+
+        d = self.defined
+        rules = {k: object() for k in ("SKIP", "WHITESPACE", "COMMENT") if d[k]}
+        code = generate_parse_trivia(rules)  # type: ignore[arg-type]
+        tree = ast.parse(code)
+        fn = tree.body[0]
+        assert isinstance(fn, ast.FunctionDef)
+        return code, fn, []
+
+    def setup(self, run: Run):
+        _st, args, kw = ops.ParseTriviaSpec.setup(self, run)
+        return None, [run.pre["st"], *args], kw
+
+    def post(self, run: Run, pre: Any, out: Any) -> None:
+        ops.ParseTriviaSpec.post(self, run, pre, out)
+        run.oblige("result.true", z(out) == z3.BoolVal(True) if not isinstance(out, bool) else out)
+
+    def tpl_loop(self):
+        base = ops.ParseTriviaSpec.mk_loops(self)[0]
+        spec = self
+
+        def inv(run, g):
+            # the generated loop appends straight to `pairs`: no scratch list
+            return [c for c in base.inv(run, g) if c[0] != "children"]
+
+        def modifies(run):
+            return spec.state_cells(run)
+
+        lp = Loop(inv, facts=base.facts, modifies=modifies, ghosts=base.ghosts, entry=base.entry, back=base.back)
+        return lp
+
+    def lseq(self, run: Run, name: str):
+        if name == "children":
+            return EMPTY_P
+        return ops.ParseTriviaSpec.lseq(self, run, name)
+
+
+def trivia_templates():
+    out = []
+    for skip, ws, cm in ((0, 0, 0), (0, 1, 0), (0, 0, 1), (0, 1, 1), (1, 0, 0), (1, 1, 0), (1, 0, 1), (1, 1, 1)):
+        out.append(TriviaTemplate(bool(skip), bool(ws), bool(cm)))
+    return out
+
+
+class EntryTemplate(ops.ParserParseSpec):
+    """generate_parse_entry_point(): the emitted parse(start_rule, text, *, start_pos=0)."""
+
+    template_names = True
+    target = "template:parse"
+    label = "template:parse"
+
+    def source(self, engine):
+        from pest.grammar.codegen.generate import generate_parse_entry_point
+
+        code = generate_parse_entry_point()
+        tree = ast.parse(code)
+        fn = tree.body[0]
+        assert isinstance(fn, ast.FunctionDef) and fn.name == "parse"
+        src = ast.get_source_segment(code, fn) or code
+        return emit.funcinfo(self.label, src, fn)
+
+    def setup(self, run: Run):
+        me, args, kw = ops.ParserParseSpec.setup(self, run)
+        return None, args, kw
+
+    def resolve_name(self, run: Run, name: str):
+        from pyvc.values import ClassV
+
+        if name == "ParserState":
+            return ClassV(PSTATE)
+        if name == "_RULE_MAP":
+            return ("$rulemap",)
+        if name == "Pairs":
+            return ClassV("pest.pairs.Pairs")
+        if name == "PestParsingError":
+            return ClassV("pest.exceptions.PestParsingError")
+        if name == "Pair":
+            return ClassV("pest.pairs.Pair")
+        return NotImplemented
+
+    def getitem(self, run: Run, base: Any, idx: Any, n):
+        if isinstance(base, tuple) and base and base[0] == "$rulemap":
+            return TplFn("rule", idx)
+        return ops.ParserParseSpec.getitem(self, run, base, idx, n)
+
+    def call_value(self, run: Run, f: Any, args, kwargs, n):
+        if isinstance(f, TplFn) and f.kind == "rule":
+            return self.oracle_call(run, R, f.arg, args[0], args[1])
+        return NotImplemented
+
+    @property
+    def constructors(self):
+        base = ops.ParserParseSpec.constructors.fget(self)  # type: ignore[attr-defined]
+        mk = base[PSTATE]
+
+        def mk_state(run: Run, args, kwargs):
+            # generated code: ParserState(text, start_pos) - no parser object
+            st = mk(run, [args[0], args[1], run.pre["me"]], kwargs)
+            return st
+
+        return {PSTATE: mk_state}
+
+
+def entry_templates():
+    return [EntryTemplate()]
+
+
+def all_templates(max_arity: int = 3, kids: str = "pest"):
+    return [
+        *terminal_templates(), *stack_templates(), *combinator_templates(max_arity), *loop_templates(),
+        *stack_loop_templates(), *identifier_templates(), *rule_templates(kids), *trivia_templates(), *entry_templates(),
+    ]
